@@ -39,3 +39,14 @@ Definition establish (under_est : bool) (est other : N) (done_at : option N) : e
   | Some t => if (t <? timer)%N then EConnected t else EFailed timer
   | None => EFailed timer
   end.
+
+(* The TLS handshake at the listener (core.rs listen_tcp + on_new_tls_connection) has two stages: reading the ClientHello,
+   finished [a] ms after the connection was accepted, and the rest of the handshake, finished [b] ms after that.
+   [one_deadline] = TLS_HANDSHAKE_HAS_ONE_DEADLINE: both stages run under one deadline fixed when the connection was accepted;
+   as found each stage was given the whole timeout [T] of its own.
+   Some t = the handshake completed [t] ms after the connection was accepted; None = the connection was dropped. *)
+Definition handshake (one_deadline : bool) (T a b : N) : option N :=
+  if (a <? T)%N then
+    (if one_deadline then (if (a + b <? T)%N then Some (a + b)%N else None)
+     else (if (b <? T)%N then Some (a + b)%N else None))
+  else None.
